@@ -14,7 +14,8 @@ on this code path, only moved, so everything is parametric in the value type `α
 theorems hold verbatim for float32/float64/int/complex/bool data, NaNs included.
 Geometry is computed in `Rat` where Python computes in binary64.  Core Lean only.
 
-Also here: `mkCellNow?` (the `Mesh(region, cell)` constructor with the final `n >= 1` test that
+The linear-time forms the driver runs are in `Model/C17Fast.lean` (proved equal to the definitions
+here).  Also here: `mkCellNow?` (the `Mesh(region, cell)` constructor with the final `n >= 1` test that
 /repo has now), `FieldAttrs` (the attribute names of `Field`, a parameter: the `hasattr` test of
 the `vdims` setter), and `MeshOp` / `XFld.run` / `exportAfter` (in-place `field.mesh.translate`
 and `field.mesh.scale` calls before the export, through the shared `T.stepM`).
@@ -222,7 +223,9 @@ def setTol (m : Mesh) (t : Option Rat) : Mesh :=
 (`Mesh.mkCell?`: length, positivity, cell inside the region, 0.1 % divisibility, rounding)
 followed by the constructor's last test `np.less(self._n, 1).any()` → `ValueError` (a cell
 size that rounds to zero cells; reachable only ≳ 1e12 cells from the origin, where the
-tolerant containment test lets a cell larger than the region through) -/
+tolerant containment test lets a cell larger than the region through).  The shared
+`Mesh.mkCell?` has that test itself by now, so this is `Mesh.mkCell? r cell ""`
+(`Lemmas/C17Accept.mkCellNow_eq`). -/
 def mkCellNow? (r : Region) (cell : List Rat) : M Mesh :=
   (Mesh.mkCell? r cell "").bind fun m =>
   if m.n.any (fun k => decide (k < 1)) then .error .value else .ok m
@@ -288,13 +291,13 @@ def defaultVmap (k : Nat) (dims : List String) (vdims : Option (List String)) : 
   else []
 
 /-- `cls(mesh=mesh, nvdim=nvdim, value=val, vdims=vdims, dtype=xa.values.dtype)`: value
-through `_as_array` twice, all cells valid, no unit, default mapping -/
+through `_as_array` twice, all cells valid, no unit, default mapping (since repo fix d1932c87 the
+`vdim_mapping` setter no longer fails for an unlabelled field with as many components as axes) -/
 def fieldOf [FieldAttrs] {α} (xa : XA α) (m : Mesh) (k : Nat) : M (XFld α) :=
   (asArray (valOf xa k) m.n k).bind fun d1 =>
   (asArray d1 m.n k).bind fun d =>
   (vdimsSet k xa.vdimsCoord).bind fun vd =>
-  if k ≠ 1 ∧ k = m.region.dims.length ∧ vd = none then .error .type
-  else .ok { mesh := m, nvdim := k, data := d, valid := NDA.const m.n true, vdims := vd,
+  .ok { mesh := m, nvdim := k, data := d, valid := NDA.const m.n true, vdims := vd,
              vmap := defaultVmap k m.region.dims vd, unit := none, dtype := xa.dtype }
 
 /-- `Field.from_xarray` on a DataArray -/
